@@ -846,6 +846,10 @@ def search_spectral(ctx):
                     if kind == "noncp":
                         Ks2 = [cmatrix(rng, d) for _ in range(rng.randint(1, 2))]
                         C = C - Ref.choi(Ks2, order)
+                        # the difference of two CP maps may still be positive: keep the sample only
+                        # if it really has a negative eigenvalue (otherwise the CP branch is taken)
+                        while np.linalg.eigvalsh((C + C.conj().T) / 2).min() > -1e-3:
+                            C = C - Ref.choi([cmatrix(rng, d)], order)
                     with warnings.catch_warnings():
                         warnings.simplefilter("ignore")
                         try:
